@@ -52,6 +52,34 @@ def waitDecision (c : Cfg) (shouldContinue : Bool) (attempts jn jd : Nat) : Opti
   else if c.maxAttempts ≤ attempts then none
   else some (delay c attempts jn jd)
 
+/-! ## error filters of `create_retry_strategy` (retries.py:74-104) -/
+
+/-- Python's `pat in s` on strings (as character lists): `pat` occurs as a contiguous piece of `s`. -/
+def isInfix (pat : List Char) : List Char → Bool
+  | [] => pat.isEmpty
+  | c :: cs => pat.isPrefixOf (c :: cs) || isInfix pat cs
+
+/-- One entry of `retryable_errors`: a plain string is a *substring* test against `str(error)`; of a compiled
+pattern the model only knows whether `pattern.search(str(error))` finds a match (the `re` engine is not modelled). -/
+inductive MsgFilter where
+  | text (s : String)
+  | pattern (hit : Bool)
+  deriving Repr, Inhabited
+
+def msgHit (msg : String) : MsgFilter → Bool
+  | .text p => isInfix p.toList msg.toList
+  | .pattern h => h
+
+/-- Is the error retryable?  `msgFilters` / `typeFilters` are `config.retryable_errors` /
+`config.retryable_error_types` (`none` = not given; a type filter is represented by the outcome of its `isinstance`
+test).  Only when NEITHER was given the default pattern `.*` (matches every message) applies. -/
+def retryable (msgFilters : Option (List MsgFilter)) (typeFilters : Option (List Bool)) (msg : String) : Bool :=
+  let fs := match msgFilters with
+    | some l => l
+    | none => if typeFilters.isNone then [.pattern true] else []
+  fs.any (msgHit msg) || (typeFilters.getD []).any id
+
+
 /-- The presets of `RetryPresets` (retries.py:121-174). -/
 def presetNone : Cfg := ⟨1, 5, 300, 2, 1, .full⟩
 def presetDefault : Cfg := ⟨6, 5, 60, 2, 1, .full⟩
